@@ -13,13 +13,14 @@ PASSED=$(awk '{s+=$4} END{print s}' /tmp/vm_$NAME.suite); FAILED=$(awk '{s+=$6} 
 echo "suite: passed=$PASSED failed=$FAILED"
 cp MUTANT/demo.rs tests/demo_mutant.rs
 echo "== demo with the patch (must fail)"
-cargo test --offline --test demo_mutant 2>&1 | grep -E "^test result|^test .* (ok|FAILED)" | tee /tmp/vm_$NAME.with
+cargo test --offline --test demo_mutant > /tmp/vm_$NAME.with.raw 2>&1; RCW=$?
+grep -E "^test result|^test .* (ok|FAILED)|SIGABRT|signal: 6" /tmp/vm_$NAME.with.raw | tee /tmp/vm_$NAME.with
 git apply -R MUTANT/patch.diff
 echo "== demo without the patch (must pass)"
 cargo test --offline --test demo_mutant 2>&1 | grep -E "^test result|^test .* (ok|FAILED)" | tee /tmp/vm_$NAME.without
 git apply MUTANT/patch.diff
 rm -f tests/demo_mutant.rs
-W=$(grep -c "FAILED" /tmp/vm_$NAME.with); WO=$(grep -c "FAILED" /tmp/vm_$NAME.without)
+W=$(grep -c "FAILED\|SIGABRT\|signal: 6" /tmp/vm_$NAME.with); [ "$RCW" = "0" ] && W=0; WO=$(grep -c "FAILED" /tmp/vm_$NAME.without)
 echo "demo failures: with=$W without=$WO"
 if [ "$FAILED" = "0" ] && [ "$W" -gt 0 ] && [ "$WO" = "0" ]; then
   mkdir -p /verif/seeded/$NAME && cp MUTANT/patch.diff MUTANT/demo.rs MUTANT/meta.json /verif/seeded/$NAME/
